@@ -123,6 +123,6 @@ for nm in ('new', 'empty', 'reset', 'finalize'):
     body = body[:i] + '    #[verifier::external_body]\n' + body[i:]
 
 import json
-json.dump({'op_reg': ARMS_UN, 'op_reg_imm': ARMS_IMM, 'op_reg_reg': ARMS_RR}, open('/tmp/probe/alloc/arms.json','w'))
+json.dump({'op_reg': ARMS_UN, 'op_reg_imm': ARMS_IMM, 'op_reg_reg': ARMS_RR}, open('/verif/design-probes/verus-alloc/arms.json','w'))
 sys.stderr.write('tables: unary=%d imm=%d bin=%d\n' % (n_unary, n_imm, n_bin))
 print(body)
